@@ -141,3 +141,15 @@ Proof.
   rewrite (nth_indep _ d (f 0)) by (rewrite map_length, seq_length; exact Hx).
   rewrite map_nth with (d := 0). rewrite seq_nth by exact Hx. reflexivity.
 Qed.
+
+(* The authenticity decision has no memory: in the model it reads only the
+   submitted message (m_ver, m_from: the outcome of ExtractAndVerify on it) and
+   the identity of the stream; so after ANY history - in particular after the
+   same stream had an authentic message with the same seqno, sender and
+   signature accepted - a message that does not verify, or verifies for another
+   identity, is rejected. *)
+Theorem unauthentic_rejected_run l c seq m :
+  (m_ver m = false \/ m_from m <> sc_src (scalls (run l) c)) ->
+  alive (sc_st (scalls (run l) c)) = true -> sc_perr (scalls (run l) c) = None ->
+  step (run l) (SessReq c seq (RSend m)) = fail c ERejected (run l).
+Proof. cbn [step]. apply unauthentic_rejected. Qed.
